@@ -1,6 +1,6 @@
 (* C17 — the length probe is a function of the first three bytes only.  Property theorems only. *)
 Require Import Base Crc Bitfield Headers Encode Decode Process Ops Spec Judge.
-Require Import Hist DecodeFacts StepsSimple.
+Require Import Hist DecodeFacts StepsSimple Extra.
 Open Scope N_scope.
 
 (* (1) closed form, for every byte string: fewer than three bytes are rejected (no panic); otherwise the answer
@@ -17,6 +17,11 @@ Proof. exact get_length_closed. Qed.
 Theorem C17_oracle_holds_on_model : holds_on_model 17.
 Proof. exact c17_holds. Qed.
 
+(* (3) context independence, stated outright: what get_length observes does not depend on the context *)
+Theorem C17_context_independent : forall ovf c1 c2 p,
+  snd (step ovf c1 (OGetLength p)) = snd (step ovf c2 (OGetLength p)).
+Proof. exact get_length_context_independent. Qed.
+
 Example C17_nonvacuous :
   get_length [0x20; 0x0F; 0x09; 0xAA; 0xBB] = ok 13%nat /\ get_length [0x20; 0x0E; 0x09] = err MInvalid DUnknown
   /\ get_length [0x20; 0x0F] = err MInvalid DUnknown.
@@ -24,3 +29,4 @@ Proof. repeat split; vm_compute; reflexivity. Qed.
 
 Print Assumptions C17_closed_form.
 Print Assumptions C17_oracle_holds_on_model.
+Print Assumptions C17_context_independent.
